@@ -37,29 +37,32 @@ def run_kernels(files, per_condition_timeout=20):
 
 
 def replay(ce):
-    """run the counterexample on the real function; returns (reproduced, description)"""
+    """run the counterexample on the real function in a clean interpreter (no harness stubs); returns
+    (reproduced, description)"""
+    import json
+    import subprocess
     mod = ce["file"][:-3]
-    code = "import random, _random, crosshair\nfrom kernels.%s import *\n" % mod
-    call = "%s(%s)" % (ce["function"], ce["args"])
-    if ce["patch"]:
-        code += "with %s:\n    _r = %s\n" % (ce["patch"], call)
-    else:
-        code += "_r = %s\n" % call
-    ns = {}
-    try:
-        sys.path.insert(0, VERIF)
-        exec(code, ns)
-    except Exception as e:
-        return True, "%s raised %s: %s" % (call, type(e).__name__, e)
-    finally:
-        sys.path.remove(VERIF)
-    r = ns["_r"]
-    args = eval("(%s,)" % ce["args"], {"float": float, "nan": float("nan"), "inf": float("inf")})
     post = {"k_weighted3": "post_weighted", "k_weighted2": "post_weighted2"}.get(ce["function"])
+    call = "%s(%s)" % (ce["function"], ce["args"])
+    lines = ["import sys, json, random, _random, crosshair", "sys.path.insert(0, %r)" % VERIF, "from kernels.%s import *" % mod,
+             "nan = float('nan'); inf = float('inf')", "try:"]
+    if ce["patch"]:
+        lines += ["    with %s:" % ce["patch"], "        _r = %s" % call]
+    else:
+        lines += ["    _r = %s" % call]
+    lines += ["except Exception as e:", "    print(json.dumps({'raised': type(e).__name__ + ': ' + str(e)})); sys.exit(0)"]
     if post:
-        ok = ns[post](r, *args)
+        lines += ["print(json.dumps({'result': repr(_r), 'post': bool(%s(_r, %s))}))" % (post, ce["args"])]
     elif ce["function"] == "k_uniform":
-        ok = 0 <= r < args[0]
+        lines += ["print(json.dumps({'result': repr(_r), 'post': bool(0 <= _r < (%s))}))" % ce["args"]]
     else:
         return False, "no post-condition replay for %s" % ce["function"]
-    return (not ok), "%s with %s returned %r" % (call, ce["patch"], r)
+    try:
+        r = subprocess.run([sys.executable, "-c", "\n".join(lines)], capture_output=True, text=True, timeout=120,
+                           env=dict(os.environ, PYTHONPATH=os.environ.get("PYTHONPATH", "")))
+        out = json.loads(r.stdout.strip().splitlines()[-1])
+    except Exception as e:
+        return False, "replay did not run: %s" % e
+    if "raised" in out:
+        return True, "%s with %s raised %s" % (call, ce["patch"], out["raised"])
+    return (not out["post"]), "%s with %s returned %s" % (call, ce["patch"], out["result"])
